@@ -178,6 +178,8 @@ class Unit:
                     raise StopUnit()
                 return
             if tries >= MAX_REPLAY_MODELS:
+                if self.hunt(ctx, label, state):
+                    return
                 so = state.get("sym_out")
                 if isinstance(so, Raised):
                     detail += " | symbolic outcome: " + repr(so) + " " + so.tb[-700:]
@@ -187,10 +189,36 @@ class Unit:
             block = z3.Or([c != _val(v, c) for (n, c), v in zip(ctx.inputs.items(), [values[n] for n in ctx.inputs])])
             r2, m = ctx._check(bad_e, block, *state.get("nice", []))
             if r2 != "sat":
+                if self.hunt(ctx, label, state):
+                    return
                 state["unconfirmed"].append({"unit": self.name, "label": label, "values": jsonable(values),
                                              "detail": detail + " (no further model)", "tries": tries})
                 return
             ctx.checks.append((label, "sat", 0.0, K.model_values(m, ctx.inputs)))
+
+    def hunt(self, ctx, label, state):
+        """Bug hunting when the symbolic run could not follow the code (e.g. it raised inside an operation the
+        shadow values do not model): solver models of the path condition, diversified, are replayed on the real
+        code against the oracle.  Only a reproduced failure is reported; nothing is ever concluded from a pass."""
+        if not isinstance(state.get("sym_out"), Raised):
+            return False
+        import random
+        rng = random.Random(hash((self.name, label, "hunt")) & 0xFFFF)
+        for _ in range(8):
+            values = ctx.diverse_model(rng)
+            if values is None:
+                return False
+            status, detail = self.replay(label, values)
+            if status in ("reproduced", "reproduced_other"):
+                state["violations"].append({
+                    "unit": self.name, "label": label, "values": jsonable(values),
+                    "detail": detail + " (found by replaying solver models of the path condition: the symbolic run raised "
+                                       + repr(state["sym_out"])[:120] + ")",
+                    "signature": self.signature(label, values, detail), "decisions": [t[0] for t in ctx.trace]})
+                if len(state["violations"]) >= self.max_violations:
+                    raise StopUnit()
+                return True
+        return False
 
     def validate_witness(self, ctx, S, args, out, state):
         """Run the unpatched code on a model of this path and compare with the symbolic outcome.
